@@ -10,15 +10,22 @@
 //	flake     scenarios (flakiness, attempts with exit status and result files) through the real parseTestOutput,
 //	          TestSuite.Add, AllSucceeded and BuildTarget.AddTestResults, folded in the order doFlakeRun uses
 //	e2e       the same kind of scenario as gentest targets run by the real `plz test` (real doFlakeRun, summary lines)
+//	collide   (inside add / flake / e2e) cases whose different (classname, name) pairs have the same joined form
+//	          classname + "." + name, empty names and classnames included
+//	stored    parseTestResultsFile / readTestResultsDir on a file or directory at the real target.TestResultsFile() path
+//	twice     the e2e targets run by a SECOND `plz test` of the unchanged repository (cached path), totals and result
+//	          XML of both invocations compared with each other and with the model
 package main
 
 import (
+	"encoding/xml"
 	"errors"
 	"fmt"
 	"os"
 	"os/exec"
 	"path/filepath"
 	"regexp"
+	"sort"
 	"strconv"
 	"strings"
 
@@ -510,6 +517,14 @@ func judge(c *lib.Ctx, where string, sc Scenario, got counts, passed bool) {
 	}
 	what := fmt.Sprintf("%s: target %s flaky=%d reported tests/passed/flakes/failed/errored/skipped=%v passing=%v, the outcome set written is %v passing=%v",
 		where, sc.Name, sc.Flaky, got, passed, want, wantPass)
+	if !classify(c, what, sc, got, passed) {
+		c.Fail("summary-mismatch", what, sc.js())
+	}
+}
+
+// classify names the known classes (by input shape and exact predicted deviation) of a report that differs from
+// the outcome set written; false = none fits
+func classify(c *lib.Ctx, what string, sc Scenario, got counts, passed bool) bool {
 	classes := [3]string{"repeated-case-name-merged-as-retry", "exit-status-check-adds-synthetic-case", "retried-case-counted-twice"}
 	for mask := 1; mask < 8; mask++ {
 		d := dev{mask&1 != 0, mask&2 != 0, mask&4 != 0}
@@ -522,9 +537,77 @@ func judge(c *lib.Ctx, where string, sc Scenario, got counts, passed bool) {
 				c.Fail(cl, what, sc.js())
 			}
 		}
+		return true
+	}
+	return false
+}
+
+// the number of attempts the retry loop executes on a scenario of the domain (exit status consistent with the cases)
+func executedCount(sc Scenario) int {
+	n := 0
+	for i := 0; i < sc.Flaky && i < len(sc.Attempts); i++ {
+		n++
+		ok := true
+		for _, k := range attemptCases(sc.Attempts[i]) {
+			ok = ok && caseOK(k.Outs)
+		}
+		if ok {
+			break
+		}
+	}
+	return n
+}
+
+// judgeSecond: the report of a second invocation of the unchanged target.  Nothing was re-run (or the same attempts
+// were), so the property demands the outcome counts of the first report.  Known deviation: the cached path re-reads
+// the stored file of the LAST attempt only.
+func judgeSecond(c *lib.Ctx, sc Scenario, got counts, passed, cached bool, js any) {
+	c.Oracle()
+	want, wantPass, _ := summarise(sc, dev{})
+	if got == want && passed == wantPass {
 		return
 	}
-	c.Fail("summary-mismatch", what, sc.js())
+	what := fmt.Sprintf("second `plz test` of the unchanged target %s flaky=%d (cached=%v) reported tests/passed/flakes/failed/errored/skipped=%v passing=%v, the outcome set written is %v passing=%v",
+		sc.Name, sc.Flaky, cached, got, passed, want, wantPass)
+	if k := executedCount(sc); cached && k > 1 {
+		last := Scenario{Name: sc.Name, Flaky: 1, Attempts: []Attempt{sc.Attempts[k-1]}}
+		if n, p, _ := summarise(last, dev{}); n == got && p == passed {
+			c.Fail("cached-report-forgets-retries", what, js)
+			return
+		}
+	}
+	if !cached && classify(c, what, sc, got, passed) {
+		return
+	}
+	c.Fail("summary-mismatch", what, js)
+}
+
+// a case of the domain that neither passed nor was skipped in any executed attempt must be reported, under its own
+// (classname, name), as a case without a passing or skipped execution: never as a pass or a flake of another case
+func judgeFailedCases(c *lib.Ctx, where string, sc Scenario, got []Case) {
+	c.Oracle()
+	_, _, ids := summarise(sc, dev{})
+	occ := map[[2]string]int{}
+	for _, id := range ids {
+		occ[[2]string{id.class, id.name}]++
+	}
+	for _, id := range ids {
+		if caseOK(id.outs) || occ[[2]string{id.class, id.name}] > 1 {
+			continue // repeated pairs inside one attempt: class repeated-case-name-merged-as-retry, judged by judge()
+		}
+		found := false
+		for _, g := range got {
+			if g.Class == id.class && g.Name == id.name {
+				outs, _ := execOuts(g.Execs)
+				found = !caseOK(outs)
+			}
+		}
+		if !found {
+			c.Fail("failed-case-not-reported-as-failed", fmt.Sprintf("%s: case classname=%q name=%q has outcomes %v (never passed, never skipped) but the report %v has no failed/errored case with that classname and name",
+				where, id.class, id.name, id.outs, got), sc.js())
+			return
+		}
+	}
 }
 
 // the input-shape precondition of each known class
@@ -584,6 +667,26 @@ func (sc Scenario) js() any {
 var namePool = []string{"a&b", "<init>", "x>y", `say "hi"`, "it's", "ünïcödé", "日本語テスト", "snow☃man", `mix&<>"'é`,
 	"plain_test", "Test With Space", "TestAlpha", "TestBeta", "test_gamma", "a]]>b", "&amp;", "&#38;lt;"}
 var classPool = []string{"", "pkg.Cls", "a&b.C<d>", `q"uo'te`, "Ünï.Cls"}
+
+// strings with at least two dots: splitting one at different dots gives different (classname, name) pairs whose
+// joined form classname + "." + name is the same string
+var dottedPool = []string{"pkg.Outer.Inner.test_ok", "a.b.c", ".x.y", "a..b", "x.y.", "..", "com.ex.Cls$In.m.n", "T.a&b.<c>"}
+
+func collidingPairs(r *lib.Rng) [][2]string {
+	w := lib.Pick(r, dottedPool)
+	dots := []int{}
+	for i := range w {
+		if w[i] == '.' {
+			dots = append(dots, i)
+		}
+	}
+	lib.Shuffle(r, dots)
+	out := [][2]string{}
+	for _, i := range dots[:r.Range(2, min(3, len(dots)))] {
+		out = append(out, [2]string{w[:i], w[i+1:]})
+	}
+	return out
+}
 
 func escAttr(s string, style int) string {
 	var b strings.Builder
@@ -943,11 +1046,22 @@ func genGoDatum(r *lib.Rng, unknown bool) Datum {
 // a scenario inside the property's domain: the same cases in every attempt, outcomes drawn per attempt, exit
 // status non-zero exactly when some case of the attempt neither passed nor was skipped
 func genScenario(r *lib.Rng, name string, e2e bool) Scenario {
+	return genScenarioC(r, name, r.Chance(1, 6))
+}
+
+// collide: the cases are (XML only) two or three colliding pairs, sometimes with an ordinary case next to them
+func genScenarioC(r *lib.Rng, name string, collide bool) Scenario {
 	sc := Scenario{Name: name, Flaky: lib.Pick(r, []int{1, 1, 2, 2, 3}), Domain: true}
-	goFmt := r.Chance(1, 3)
+	goFmt := !collide && r.Chance(1, 3)
 	type id struct{ class, name string }
 	ids := []id{}
 	n := r.Range(1, 5)
+	if collide {
+		for _, p := range collidingPairs(r) {
+			ids = append(ids, id{p[0], p[1]})
+		}
+		n = r.Range(0, 1)
+	}
 	for i := 0; i < n; i++ {
 		k := id{lib.Pick(r, classPool), lib.Pick(r, namePool)}
 		if goFmt {
@@ -959,6 +1073,9 @@ func genScenario(r *lib.Rng, name string, e2e bool) Scenario {
 		ids = append(ids, k)
 	}
 	mode := r.Intn(4) // 0 mostly green, 1 one flaky case, 2 mixed, 3 errors only
+	if collide {
+		mode = lib.Pick(r, []int{0, 2, 2, 4}) // 4: one colliding case fails every time, the others pass
+	}
 	for a := 0; a < sc.Flaky; a++ {
 		at := Attempt{}
 		var d Datum
@@ -986,6 +1103,10 @@ func genScenario(r *lib.Rng, name string, e2e bool) Scenario {
 				out = lib.Pick(r, outcomes)
 				if a > 0 && r.Bool() {
 					out = "pass"
+				}
+			case 4:
+				if i == 0 {
+					out = lib.Pick(r, []string{"fail", "fail", "error"})
 				}
 			default:
 				if r.Chance(1, 2) && a+1 < max(sc.Flaky, 2) {
@@ -1092,14 +1213,32 @@ type e2eResult struct {
 	n      counts
 	passed bool
 	seen   bool
+	cached bool        // the summary line carries [cached]
+	xml    [][2]string // (classname, name) of the <testcase> elements of this target in --test_results_file, sorted
+	xmlOK  bool
 }
 
-func runE2E(c *lib.Ctx, plz string, scs []Scenario) (map[string]*e2eResult, error) {
+type resultsXML struct {
+	Suites []struct {
+		Name  string `xml:"name,attr"`
+		Cases []struct {
+			Name  string `xml:"name,attr"`
+			Class string `xml:"classname,attr"`
+		} `xml:"testcase"`
+	} `xml:"testsuite"`
+}
+
+// runE2E writes the scenarios as gentest targets and runs `plz test //t:all` TWICE in the same repository: the
+// second invocation finds every target unchanged, so targets whose results were stored take the cached path of
+// test() (parseTestResultsFile on .test_results_<name>); the others are run again on the same attempts (the attempt
+// counters are reset in between).
+func runE2E(c *lib.Ctx, plz string, scs []Scenario) ([2]map[string]*e2eResult, error) {
+	var both [2]map[string]*e2eResult
 	root := filepath.Join(c.Out, "e2e-repo")
 	os.RemoveAll(root)
 	state := filepath.Join(root, "state")
 	if err := os.MkdirAll(filepath.Join(root, "t"), 0o755); err != nil {
-		return nil, err
+		return both, err
 	}
 	os.MkdirAll(state, 0o755)
 	cfg := "[build]\npath = /usr/local/bin:/usr/bin:/bin\n[cache]\ndir = " + filepath.Join(root, "cache") + "\n[test]\ntimeout = 120\n"
@@ -1120,36 +1259,98 @@ func runE2E(c *lib.Ctx, plz string, scs []Scenario) (map[string]*e2eResult, erro
 		cmd := fmt.Sprintf(`n=$(cat %s 2>/dev/null || echo 0); n=$((n+1)); echo $n > %s; `, cnt, cnt) +
 			fmt.Sprintf(`if [ -e t/%s_${n}_1.res ]; then mkdir $RESULTS_FILE; cp t/%s_${n}_*.res $RESULTS_FILE/; `, sc.Name, sc.Name) +
 			fmt.Sprintf(`elif [ -e t/%s_${n}_0.res ]; then cp t/%s_${n}_0.res $RESULTS_FILE; fi; exit $(cat t/%s_${n}.exit)`, sc.Name, sc.Name, sc.Name)
-		fmt.Fprintf(&b, "gentest(\n    name = %q,\n    test_cmd = %q,\n    data = glob([%q]),\n    flaky = %d,\n    no_test_output = False,\n)\n",
-			sc.Name, cmd, sc.Name+"_*", sc.Flaky)
+		noOut := "False"
+		if sc.NoOutput {
+			noOut = "True"
+		}
+		fmt.Fprintf(&b, "gentest(\n    name = %q,\n    test_cmd = %q,\n    data = glob([%q]),\n    flaky = %d,\n    no_test_output = %s,\n)\n",
+			sc.Name, cmd, sc.Name+"_*", sc.Flaky, noOut)
 	}
 	os.WriteFile(filepath.Join(root, "t", "BUILD"), []byte(b.String()), 0o644)
-	cmd := exec.Command("timeout", "300", plz, "test", "//t:all", "--plain_output", "--detailed", "--keep_going")
-	cmd.Dir = root
-	cmd.Env = append(os.Environ(), "HOME="+root)
-	out, _ := cmd.CombinedOutput()
-	res := map[string]*e2eResult{}
-	for _, sc := range scs {
-		res[sc.Name] = &e2eResult{passed: true}
-	}
 	atoi := func(s string) int { n, _ := strconv.Atoi(s); return n }
-	for _, line := range strings.Split(ansi.ReplaceAllString(string(out), ""), "\n") {
-		if m := failLine.FindStringSubmatch(line); m != nil && res[m[1]] != nil {
-			res[m[1]].passed = false
+	for inv := 0; inv < 2; inv++ {
+		// every attempt counter starts again: a target that is run again executes the same attempts
+		os.RemoveAll(state)
+		os.MkdirAll(state, 0o755)
+		xmlPath := filepath.Join(root, fmt.Sprintf("results%d.xml", inv+1))
+		cmd := exec.Command("timeout", "300", plz, "test", "//t:all", "--plain_output", "--detailed", "--keep_going", "--test_results_file", xmlPath)
+		cmd.Dir = root
+		cmd.Env = append(os.Environ(), "HOME="+root)
+		out, _ := cmd.CombinedOutput()
+		res := map[string]*e2eResult{}
+		for _, sc := range scs {
+			res[sc.Name] = &e2eResult{passed: true}
 		}
-		if m := summaryLine.FindStringSubmatch(line); m != nil && res[m[1]] != nil {
-			r := res[m[1]]
-			r.seen = true
-			r.n = counts{atoi(m[2]), atoi(m[3]), atoi(m[7]), atoi(m[5]), atoi(m[4]), atoi(m[6])}
+		for _, line := range strings.Split(ansi.ReplaceAllString(string(out), ""), "\n") {
+			if m := failLine.FindStringSubmatch(line); m != nil && res[m[1]] != nil {
+				res[m[1]].passed = false
+			}
+			if m := summaryLine.FindStringSubmatch(line); m != nil && res[m[1]] != nil {
+				r := res[m[1]]
+				r.seen = true
+				r.cached = strings.Contains(line, "[cached]")
+				r.n = counts{atoi(m[2]), atoi(m[3]), atoi(m[7]), atoi(m[5]), atoi(m[4]), atoi(m[6])}
+			}
 		}
-	}
-	for _, sc := range scs {
-		if !res[sc.Name].seen {
-			return res, fmt.Errorf("no summary line for //t:%s in the output of plz test:\n%s", sc.Name, tail(string(out), 3000))
+		// a target for which nothing at all is printed has no per-target line (plz prints none for 0 tests): its
+		// counters stay zero.  Only an invocation that printed no summary at all is an error of the harness.
+		if !strings.Contains(string(out), "test target") {
+			return both, fmt.Errorf("invocation %d: no summary in the output of plz test:\n%s", inv+1, tail(string(out), 3000))
 		}
+		if data, err := os.ReadFile(xmlPath); err == nil {
+			var doc resultsXML
+			if xml.Unmarshal(data, &doc) == nil {
+				for _, s := range doc.Suites {
+					if r := res[s.Name]; r != nil {
+						r.xmlOK = true
+						for _, k := range s.Cases {
+							r.xml = append(r.xml, [2]string{k.Class, k.Name})
+						}
+						sort.Slice(r.xml, func(i, j int) bool {
+							return r.xml[i][0] < r.xml[j][0] || (r.xml[i][0] == r.xml[j][0] && r.xml[i][1] < r.xml[j][1])
+						})
+					}
+				}
+			}
+		}
+		both[inv] = res
 	}
 	os.RemoveAll(root)
-	return res, nil
+	return both, nil
+}
+
+// hand-made documents for the forced scenarios
+func xmlDatum(style int, cases ...XCase) Datum {
+	d := Datum{Kind: "xml", Style: style, Tops: []XTop{{Kind: "suite", Suites: []XSuite{{Name: "s", Cases: cases}}}}}
+	render(&d)
+	return d
+}
+func goDatum(cases ...GoCase) Datum {
+	d := Datum{Kind: "go", Go: cases}
+	render(&d)
+	return d
+}
+
+// scenarios every run must contain: colliding pairs (one failing; all succeeding, hence stored and re-read), a
+// retried target, a target without results file, go output, a results directory
+func forcedScenarios() []Scenario {
+	a, b := [2]string{"pkg.Outer", "Inner.test_ok"}, [2]string{"pkg.Outer.Inner", "test_ok"}
+	return []Scenario{
+		{Name: "fcol1", Flaky: 1, Domain: true, Attempts: []Attempt{{ExitNonzero: true, Data: []Datum{xmlDatum(0,
+			XCase{Class: a[0], Name: a[1]}, XCase{Class: b[0], Name: b[1], Fail: true})}}}},
+		{Name: "fcol2", Flaky: 1, Domain: true, Attempts: []Attempt{{Data: []Datum{xmlDatum(64,
+			XCase{Class: a[0], Name: a[1]}, XCase{Class: b[0], Name: b[1], Skip: true}, XCase{Class: "", Name: "x.y"}, XCase{Class: ".x", Name: "y"},
+			XCase{Class: "x.y", Name: ""})}}}},
+		{Name: "fretry", Flaky: 2, Domain: true, Attempts: []Attempt{
+			{ExitNonzero: true, Data: []Datum{xmlDatum(0, XCase{Class: "c", Name: "x", Fail: true}, XCase{Class: "c", Name: "y"})}},
+			{Data: []Datum{xmlDatum(0, XCase{Class: "c", Name: "x"}, XCase{Class: "c", Name: "y"})}}}},
+		{Name: "fnoout", Flaky: 1, NoOutput: true, Attempts: []Attempt{{}}},
+		{Name: "fgo", Flaky: 1, Domain: true, Attempts: []Attempt{{Data: []Datum{goDatum(
+			GoCase{Name: "TestA", Res: "pass"}, GoCase{Name: "TestB", Res: "skip"}, GoCase{Name: "TestC", Res: "pass"})}}}},
+		{Name: "fdir", Flaky: 1, Domain: true, Attempts: []Attempt{{Data: []Datum{
+			xmlDatum(2048, XCase{Class: "c", Name: "one"}, XCase{Class: "c", Name: "two", Skip: true}),
+			goDatum(GoCase{Name: "TestD", Res: "pass"})}}}},
+	}
 }
 
 func tail(s string, n int) string {
@@ -1169,7 +1370,13 @@ func main() {
 			"rendered in 4096 XML styles and 16 `go test -v` styles and parsed by the real parseTestResultDatum; scenarios (flakiness 1-3, " +
 			"per-attempt outcomes and exit status) through the real parseTestOutput + TestSuite.Add + AllSucceeded + AddTestResults and, " +
 			"for a subset, as gentest targets through the real `plz test`; explicit suites through the counters (all single cases with <= 3 " +
-			"executions exhaustively) and Add. distinct = distinct inputs; non-trivial = at least two cases or two executions, not all passing")
+			"executions exhaustively) and Add. Adversarial: in every third Add input, every eighth in-process scenario, a sixth of the other scenarios " +
+			"and two forced e2e targets the cases are different (classname, name) pairs with the same joined form classname.name (one dotted string " +
+			"split at different dots; empty names and classnames). Stored results: a file or a directory of 0-4 files (dotfile names included) at the " +
+			"real target.TestResultsFile() path through parseTestResultsFile / readTestResultsDir. Every e2e target is run by two consecutive " +
+			"`plz test` invocations of the unchanged repository (second = cached path or the same attempts again); totals, [cached] marker and " +
+			"the <testcase> elements of --test_results_file of both are compared with each other and with the model. " +
+			"distinct = distinct inputs; non-trivial = at least two cases or two executions, not all passing")
 
 		// --- 1. dispatch
 		fixed := []string{"", "<", "<?xml", "<?xm", "<test", "<tes", "<testsuites>", "<testcase", "<test name=", " <?xml", "\n<testsuite>",
@@ -1292,10 +1499,26 @@ func main() {
 			r := c.Rng.Fork()
 			names := []string{lib.Pick(r, namePool), lib.Pick(r, namePool), lib.Pick(r, namePool)}
 			classes := []string{lib.Pick(r, classPool), lib.Pick(r, classPool)}
+			pairs := [][2]string{}
+			for _, cl := range classes {
+				for _, nm := range names {
+					pairs = append(pairs, [2]string{cl, nm})
+				}
+			}
+			collide := i%3 == 2
+			if collide {
+				// adversarial: different pairs with the same joined form, empty names / classnames included
+				pairs = collidingPairs(r)
+				if r.Chance(1, 3) {
+					pairs = append(pairs, [2]string{lib.Pick(r, classes), lib.Pick(r, names)})
+				}
+			}
+			c.Hist("add_pairs", map[bool]string{false: "ordinary", true: "colliding-joined-form"}[collide])
 			mk := func(n int) []Case {
 				out := []Case{}
 				for ; n > 0; n-- {
-					k := Case{Class: lib.Pick(r, classes), Name: lib.Pick(r, names), Execs: []Exec{}}
+					p := lib.Pick(r, pairs)
+					k := Case{Class: p[0], Name: p[1], Execs: []Exec{}}
 					for j := r.Range(0, 2); j > 0; j-- {
 						k.Execs = append(k.Execs, lib.Pick(r, kinds))
 					}
@@ -1414,20 +1637,122 @@ func main() {
 			c.HistN("flakiness", sc.Flaky)
 			if sc.Domain {
 				judge(c, "in-process", sc, n, ok)
+				judgeFailedCases(c, "in-process", sc, got)
 			}
 		}
 		for i := 0; i < c.Scale(160, 6000); i++ {
 			r := c.Rng.Fork()
-			if r.Chance(1, 4) {
+			if i%8 == 7 {
+				flakeCase(genScenarioC(r, "col"+strconv.Itoa(i), true))
+				c.Hist("flake_scenario", "colliding-joined-form")
+			} else if r.Chance(1, 4) {
 				flakeCase(genWildScenario(r, "wild"+strconv.Itoa(i)))
 			} else {
 				flakeCase(genScenario(r, "sc"+strconv.Itoa(i), false))
 			}
 		}
 
+		// --- 5b. the reader of stored results, on the path the cached branch of test() reads
+		storedCase := func(i int) {
+			r := c.Rng.Fork()
+			root, err := os.MkdirTemp(c.Out, "stored")
+			if err != nil {
+				panic(err)
+			}
+			defer os.RemoveAll(root)
+			target := newTarget("st"+strconv.Itoa(i), false)
+			path := filepath.Join(root, target.TestResultsFile()) // plz-out/bin/t/.test_results_<name>
+			genD := func() Datum {
+				switch r.Intn(8) {
+				case 0:
+					return genGoDatum(r, false)
+				case 1:
+					return Datum{Kind: "bad", Text: ""}
+				case 2:
+					return genXMLDatum(r, 0, false)
+				default:
+					sc := genScenarioC(r, "x", r.Chance(1, 3))
+					return sc.Attempts[0].Data[0]
+				}
+			}
+			type entry struct {
+				Name string
+				D    Datum
+			}
+			entries := []entry{}
+			isDir := i%3 == 2
+			if err := os.MkdirAll(filepath.Dir(path), 0o755); err != nil {
+				panic(err)
+			}
+			if isDir {
+				names := []string{"0.xml", "1.xml", "b.res", "a.res", ".hidden.xml", "z", "test.results", ".test_results_x", "A.xml", "10.xml"}
+				lib.Shuffle(r, names)
+				os.MkdirAll(path, 0o755)
+				for _, nm := range names[:r.Range(0, 4)] {
+					e := entry{nm, genD()}
+					entries = append(entries, e)
+					if err := os.WriteFile(filepath.Join(path, nm), []byte(e.D.Text), 0o644); err != nil {
+						panic(err)
+					}
+				}
+			} else {
+				entries = append(entries, entry{filepath.Base(path), genD()})
+				if err := os.WriteFile(path, []byte(entries[0].D.Text), 0o644); err != nil {
+					panic(err)
+				}
+			}
+			s, perr := test.VerifC26ParseResultsFile(path)
+			got := fromCore(s.TestCases)
+			obs := "None"
+			if perr == nil {
+				obs = lib.Some(coqSuite(got))
+			}
+			tree := ""
+			if isDir {
+				es := []string{}
+				for _, e := range entries {
+					es = append(es, lib.Pair(lib.Str(e.Name), coqDatum(e.D)))
+				}
+				tree = lib.App("RDir", lib.List(es))
+			} else {
+				tree = lib.App("RFile", coqDatum(entries[0].D))
+			}
+			js := map[string]any{"stored_path": target.TestResultsFile(), "is_dir": isDir, "entries": entries, "parsed": got, "error": fmt.Sprint(perr)}
+			c.Case(lib.App("CStored", tree, obs), js, fmt.Sprint("st", isDir, entries), len(got) > 1)
+			c.Hist("stored_shape", map[bool]string{false: "file .test_results_<name>", true: "directory"}[isDir])
+			// oracle: the reader returns exactly the bytes of the files written, a directory in name order
+			c.Oracle()
+			sorted := append([]entry{}, entries...)
+			sort.Slice(sorted, func(a, b int) bool { return sorted[a].Name < sorted[b].Name })
+			data, rerr := test.VerifC26ReadResultsDir(path)
+			same := rerr == nil && len(data) == len(sorted)
+			for k := 0; same && k < len(sorted); k++ {
+				same = string(data[k]) == sorted[k].D.Text
+			}
+			if !same {
+				c.Fail("stored-results-not-read", fmt.Sprintf("readTestResultsDir(%s) returned %d files (err=%v), %d were written", target.TestResultsFile(), len(data), rerr, len(sorted)), js)
+				return
+			}
+			// ... and the cases reported from them are the cases written (flat, well-marked documents only)
+			want, dom := []ICase{}, true
+			for _, e := range sorted {
+				dom = dom && inDomain(e.D)
+				for _, k := range intended(e.D) {
+					dom = dom && !k.nested && !k.bare
+					want = append(want, k)
+				}
+			}
+			if dom && (perr != nil || !sameCases(got, want)) {
+				c.Fail("stored-results-misreported", fmt.Sprintf("parseTestResultsFile(%s): %d cases written, reported %v (err=%v)", target.TestResultsFile(), len(want), got, perr), js)
+			}
+		}
+		for i := 0; i < c.Scale(60, 1500); i++ {
+			storedCase(i)
+		}
+
 		// --- 6. the same through the real binary
 		if plz := os.Getenv("VERIF_PLZ"); plz != "" {
-			scs := []Scenario{}
+			scs := forcedScenarios()
 			for i := 0; i < c.Scale(24, 300); i++ {
 				r := c.Rng.Fork()
 				if i%5 == 4 {
@@ -1438,21 +1763,64 @@ func main() {
 					scs = append(scs, genScenario(r, "e"+strconv.Itoa(i), true))
 				}
 			}
-			res, err := runE2E(c, plz, scs)
+			both, err := runE2E(c, plz, scs)
 			if err != nil {
 				panic(err)
 			}
+			res, res2 := both[0], both[1]
+			ncached := 0
 			for _, sc := range scs {
-				r := res[sc.Name]
+				r, r2 := res[sc.Name], res2[sc.Name]
 				js := map[string]any{"scenario": sc.js(), "counts": r.n, "passed": r.passed, "via": "plz test"}
-				c.Case(lib.App("CE2E", lib.Str(sc.Name), lib.Nat(sc.Flaky), coqAttempts(sc.Attempts), coqCounts(r.n), lib.Bool(r.passed)),
-					js, fmt.Sprint("e", js), r.n[0] > 1 && r.n[1] != r.n[0])
+				if !sc.NoOutput {
+					c.Case(lib.App("CE2E", lib.Str(sc.Name), lib.Nat(sc.Flaky), coqAttempts(sc.Attempts), coqCounts(r.n), lib.Bool(r.passed)),
+						js, fmt.Sprint("e", js), r.n[0] > 1 && r.n[1] != r.n[0])
+				}
 				c.Hist("e2e", "targets")
 				if sc.Domain {
 					judge(c, "plz test", sc, r.n, r.passed)
 				}
+				// the second invocation of the unchanged repository
+				js2 := map[string]any{"scenario": sc.js(), "first": map[string]any{"counts": r.n, "passed": r.passed, "cases": r.xml},
+					"second": map[string]any{"counts": r2.n, "passed": r2.passed, "cached": r2.cached, "cases": r2.xml}, "via": "plz test, twice"}
+				c.Case(lib.App("CTwice", lib.Str(sc.Name), lib.Bool(sc.NoOutput), lib.Nat(sc.Flaky), coqAttempts(sc.Attempts),
+					coqCounts(r.n), lib.Bool(r.passed), coqCounts(r2.n), lib.Bool(r2.passed), lib.Bool(r2.cached)),
+					js2, fmt.Sprint("t", js2), r2.cached && r2.n[0] > 1)
+				c.Hist("e2e_second", map[bool]string{false: "run again", true: "cached"}[r2.cached])
+				if r2.cached {
+					ncached++
+				}
+				c.Oracle()
+				if r.cached {
+					c.Fail("first-run-cached", fmt.Sprintf("target %s was reported [cached] by the first invocation in a fresh repository", sc.Name), js2)
+				}
+				// what is written to --test_results_file agrees with the summary line of the same invocation
+				for k, x := range []*e2eResult{r, r2} {
+					c.Oracle()
+					if len(x.xml) != x.n[0] {
+						c.Fail("result-xml-disagrees-with-summary", fmt.Sprintf("invocation %d, target %s: summary line says %d tests, the results file has %d <testcase> elements (found=%v)",
+							k+1, sc.Name, x.n[0], len(x.xml), x.xmlOK), js2)
+					}
+				}
+				if sc.Domain {
+					judgeSecond(c, sc, r2.n, r2.passed, r2.cached, js2)
+					// one attempt, distinct pairs: the very same cases, by name, in both result files
+					pairs := map[[2]string]bool{}
+					dup := false
+					for _, k := range attemptCases(sc.Attempts[0]) {
+						dup = dup || pairs[[2]string{k.Class, k.Name}]
+						pairs[[2]string{k.Class, k.Name}] = true
+					}
+					if r2.cached && executedCount(sc) == 1 && !dup {
+						c.Oracle()
+						if fmt.Sprint(r.xml) != fmt.Sprint(r2.xml) {
+							c.Fail("cached-report-changes-cases", fmt.Sprintf("target %s: first invocation wrote the cases %v, the second (cached) %v", sc.Name, r.xml, r2.xml), js2)
+						}
+					}
+				}
 			}
-			c.Note("e2e: %d gentest targets run by one `plz test //t:all --detailed` invocation of the binary built from the repository", len(scs))
+			c.Note("e2e: %d gentest targets (6 forced: colliding pairs, retry, no results file, go output, results directory) run by `plz test //t:all --detailed` TWICE in one repository; %d were reported [cached] by the second invocation",
+				len(scs), ncached)
 		} else {
 			c.Note("e2e: VERIF_PLZ not set, skipped")
 		}
